@@ -7,6 +7,7 @@ import NV.C16.Model
 import NV.C16.Tree
 import NV.C16.Spec
 import NV.C16.Hash
+import NV.C16.Globals
 
 namespace NV.C16
 
@@ -96,6 +97,8 @@ structure DState where
   /-- `tree` lines dumped by the harness for this case, in the order of the `useg` commands -/
   dumps : List String := []
   file : Option (List Byte) := none
+  /-- what an earlier operation that ended in an LPC error left in the shared counter (`poison <d>` sets it) -/
+  g : G := ⟨0, none⟩
   out : List String := []      -- newest first
 
 def layoutM : List (Var Float) :=
@@ -140,8 +143,17 @@ def tblLine (t : List Byte) (v : V) : Option String :=
     | none => none
   | _, _ => none
 
+/-- `restore_variable` entered with the shared state `g`: restore_svalue as coded (`restoreSvalueG`: reset first) -/
+def restoreVariableG (g : G) (t : List Byte) : RvOut Float :=
+  match restoreSvalueG FloatIO utf8Len g (cstr t) with
+  | .ok v => .value v
+  | .err .cls => .value (.int 0)
+  | .err e => .error (errMsg e)
+  | .crash => .crash
+  | .stuck => .stuck
+
 def doRestoreText (s : DState) (t : List Byte) (dump : Bool := false) : DState :=
-  match restoreVariable FloatIO utf8Len t with
+  match restoreVariableG s.g t with
   | .value v =>
     let s := s.emit ("rest " ++ pv false v)
     match (if dump then tblLine t v else none) with
@@ -152,12 +164,13 @@ def doRestoreText (s : DState) (t : List Byte) (dump : Bool := false) : DState :
   | .stuck => s.emit "stuck model"
 
 def doRoundtrip (s : DState) (v : V) : DState :=
-  match saveVariable FloatIO v with
+  match saveVariableEfun FloatIO v with
   | .ok t =>
     let s := s.emit ("save " ++ hexOf (save FloatIO (canonOrder v)))
     doRestoreText s t
   | .tooDeep =>
     (s.emit s!"err Mappings and/or arrays nested too deep ({maxDepth}) for save_object").emit "saveerr"
+  | .tooLong => (s.emit ("err " ++ NV.Gen.C16.saveVariableLimitMessage)).emit "saveerr"
   | .crash => s.emit "crash model"
 
 /-- canonical print of the save file (every value with sorted mapping entries) -/
@@ -263,6 +276,28 @@ def runCmdFlat (s : DState) (line : String) : DState :=
         { s with vars := (s.vars.zip xs.toList).map (fun (p : Var Float × V) => { p.1 with val := p.2 }) }
       else s.emit "seterr"
     | _ => s.emit "badval"
+  | ["poison", d] => { s with g := ⟨d.toNat!, s.g.table⟩ }
+  | ["sond", nm, _, _] =>
+    -- the save path is an existing directory: rename() fails, the temporary is unlinked, save_object returns 0
+    let name := if nm == "-" then [] else bytesOfHex nm
+    if saveObjectCrash FloatIO s.vars then s.emit "crash model"
+    else s.emit s!"so 0 made=1 tmp={hexOf (tmpName (saveName name))} left=0"
+  | ["cl", z] =>
+    let zeros := z != "0"
+    let chunks := headerLine s.progName :: saveLines FloatIO zeros s.vars
+    let newc := chunks.flatten
+    let n := newc.length
+    let cand : List Nat := [0, 1, n / 2, n - 1, n, n + 1, 4095, 4096, 4097, 8192]
+    let lims := (cand.zipIdx.filter (fun p => !(cand.take p.2).contains p.1 && (p.2 < 6 || p.1 < n))).map (·.1)
+    let oldSt := classify s.file (some newc) s.file
+    let s := s.emit s!"cl n={n}"
+    lims.foldl (fun s L =>
+      if L ≥ n then
+        let st := classify s.file (some newc) (some newc)
+        (s.emit s!"cl {L} ret=1 {st} tmp=0").emit s!"ck {L} ret=1 {st} tmp=0"
+      else
+        -- the flush of stdio writes L bytes of the block, then fails (EFBIG) / the process is killed (SIGXFSZ)
+        (s.emit s!"cl {L} ret=0 {oldSt} tmp=0").emit s!"ck {L} killed {oldSt} tmp=1") s
   | ["son", nm, _, path] =>
     let name := if nm == "-" then [] else bytesOfHex nm
     if saveObjectCrash FloatIO s.vars then s.emit "crash model"
